@@ -28,7 +28,7 @@ SMALL = [("d", k, g, n) for k in "omt" for g in (-1, 0) for n in (b"a", b"b")] +
         [("s", b"a"), ("s", b"b"), ("move",)]
 BIG = [("d", k, g, n) for k in "omt" for g in (-1, -2, 0, 1) for n in (b"a", b"b", b"ab")] + \
       [("s", b"a"), ("s", b"b"), ("s", b""), ("s", b"ab"), ("s", b"a"), ("s", b"b"),
-       ("e", b"E1"), ("e", b"E2"), ("v", b"MV"), ("v", b""), ("move",), ("move",), ("g", 0), ("g", 1)]
+       ("e", b"E1"), ("e", b"E2"), ("v", b"MV"), ("v", b""), ("move",), ("move",), ("movea",), ("g", 0), ("g", 1)]
 
 
 def nchunks(tier):
@@ -123,6 +123,8 @@ def script(cid, case):
             L.append("MV -1 " + hx(c[1]))
         elif c[0] == "move":
             L.append("MOVE")
+        elif c[0] == "movea":
+            L.append("MOVEA")
     L.append("OPTALL")
     # final phase: the parse lines are appended by the evaluation-independent rule below
     names = sorted({c[3] for c in case["calls"] if c[0] == "d"})
@@ -206,9 +208,9 @@ def evaluate(case, lines, S):
                             "call #%d %s of %s: model says %s, implementation %s" %
                             (ci + 1, calls_txt[ci], calls_txt, want, got), case)
                 return
-        elif c[0] == "move":
+        elif c[0] in ("move", "movea"):
             l = nxt("MV")
-            S.counters["move"] += 1
+            S.counters[c[0]] += 1
             if l != "MV ok":
                 S.violation("move:threw", "MOVE in %s: %s" % (calls_txt, l), case)
                 return
@@ -273,7 +275,7 @@ def _show_call(c):
         return "metavar('%s')" % c[1].decode()
     if c[0] == "g":
         return "group(g%d)" % (c[1] + 1)
-    return "MOVE"
+    return "MOVE" if c[0] == "move" else "MOVE-ASSIGN"
 
 
 def finish(run, S, tier):
